@@ -20,14 +20,15 @@ import (
 const modulePath = "github.com/php-any/origami"
 
 type Prog struct {
-	pkgs     []*packages.Package
-	all      map[string]*packages.Package
-	prog     *ssa.Program
-	cs       *Contracts
-	sizes    types.Sizes
-	repo     string
-	funcs    map[string]*ssa.Function // ssa full name -> function (incl. anonymous)
-	loadErrs []string
+	pkgs      []*packages.Package
+	all       map[string]*packages.Package
+	prog      *ssa.Program
+	cs        *Contracts
+	sizes     types.Sizes
+	repo      string
+	funcs     map[string]*ssa.Function // ssa full name -> function (incl. anonymous)
+	loadErrs  []string
+	immutable map[*ssa.Global]string // globals never written outside init: "" | "errnew"
 }
 
 func loadProg(repo string, patterns []string, preludeDir string) (*Prog, error) {
@@ -74,6 +75,7 @@ func loadProg(repo string, patterns []string, preludeDir string) (*Prog, error) 
 			}
 		}
 	}
+	P.findImmutableGlobals()
 	// contracts
 	P.cs = newContracts()
 	if preludeDir != "" {
@@ -248,4 +250,77 @@ func (P *Prog) newGen(fn *ssa.Function, ct *FuncContract) *fnGen {
 		prov: map[ssa.Value]*guardProv{}, regProv: map[*ssa.Alloc]*guardProv{}, callOrd: map[string]int{}, usedContracts: map[string]bool{},
 		tuples: map[ssa.Value][]string{}, deferArgs: map[*ssa.Defer]*callArgs{}, uncontracted: map[string]bool{}, callPosOrd: map[token.Pos]int{}}
 	return g
+}
+
+// findImmutableGlobals: a package-level variable of a module package that is
+// stored to only inside the package initialiser (and whose address is never
+// taken elsewhere) is a constant after initialisation. Those initialised by
+// errors.New / fmt.Errorf are in addition non-nil and pairwise distinct.
+func (P *Prog) findImmutableGlobals() {
+	P.immutable = map[*ssa.Global]string{}
+	mutable := map[*ssa.Global]bool{}
+	initKind := map[*ssa.Global]string{}
+	var visit func(fn *ssa.Function, isInit bool)
+	visit = func(fn *ssa.Function, isInit bool) {
+		for _, b := range fn.Blocks {
+			for _, ins := range b.Instrs {
+				// any use of the global's address other than a load or an init-time store makes it mutable
+				for _, op := range ins.Operands(nil) {
+					gl, ok := (*op).(*ssa.Global)
+					if !ok {
+						continue
+					}
+					switch x := ins.(type) {
+					case *ssa.UnOp:
+						continue // load
+					case *ssa.Store:
+						if x.Addr == gl && isInit {
+							if call, ok := x.Val.(*ssa.Call); ok {
+								if f := call.Common().StaticCallee(); f != nil && (f.String() == "errors.New" || f.String() == "fmt.Errorf") {
+									initKind[gl] = "errnew"
+								}
+							}
+							continue
+						}
+					case *ssa.DebugRef:
+						continue
+					}
+					mutable[gl] = true
+				}
+			}
+		}
+		for _, an := range fn.AnonFuncs {
+			visit(an, false)
+		}
+	}
+	for _, p := range P.prog.AllPackages() {
+		if !strings.HasPrefix(p.Pkg.Path(), modulePath) {
+			continue
+		}
+		for _, m := range p.Members {
+			switch x := m.(type) {
+			case *ssa.Function:
+				visit(x, x.Name() == "init" || strings.HasPrefix(x.Name(), "init#"))
+			case *ssa.Type:
+				for _, t := range []types.Type{x.Type(), types.NewPointer(x.Type())} {
+					ms := P.prog.MethodSets.MethodSet(t)
+					for i := 0; i < ms.Len(); i++ {
+						if f := P.prog.MethodValue(ms.At(i)); f != nil && f.Pkg == p && f.Synthetic == "" {
+							visit(f, false)
+						}
+					}
+				}
+			}
+		}
+	}
+	for _, p := range P.prog.AllPackages() {
+		if !strings.HasPrefix(p.Pkg.Path(), modulePath) {
+			continue
+		}
+		for _, m := range p.Members {
+			if gl, ok := m.(*ssa.Global); ok && !mutable[gl] {
+				P.immutable[gl] = initKind[gl]
+			}
+		}
+	}
 }
